@@ -489,6 +489,10 @@ Definition e_decode_schema (v : uval) : uval := vopt (vopt vpairs) (decode_schem
 Definition e_decode_regdata (v : uval) : uval :=
   vopt (vopt (fun r => VL [vpairs (fst r); vopt (vlist (fun q => VL [vN (fst q); vdval (snd q)])) (snd r)]))
        (decode_regdata (getopt getpairs (arg 0 v)) (getbytes (arg 1 v))).
+(* schedule index a set-schedule request is routed to for position j of the schedule-parameter table *)
+From PV Require Import Model.SchedRoute.
+Definition e_routed_schedule (v : uval) : uval :=
+  vopt vnat (match nth_error schedule_params (getnat v) with Some d => routed_index (pd_name d) | None => None end).
 (* the Coq layout of regulator data: [[id; code; value]...] -> [admissible; bytes] *)
 From PV Require Import Spec.C05r.
 Definition e_enc_regdata (v : uval) : uval :=
